@@ -587,8 +587,31 @@ pub fn chk_early_exit(cx: &Ctx, fair_k: u32) -> Vec<Viol> {
     if !cx.case.term.is_short_circuit() || cx.obs.result.is_err() {
         return vs;
     }
+    // a flat_map expansion that never ends contains elements of every slot, hence a match: the search must end
+    // (the harness' expansions give up after RUNAWAY_LIMIT children, so that "never returns" is observable)
+    if cx.obs.exp_runaway {
+        vs.push(v(
+            "runaway-expansion",
+            format!(
+                "a flat_map expansion was advanced {} times although it holds a match among its first 64 elements: the search does not stop at the match",
+                hcore::closures::RUNAWAY_LIMIT
+            ),
+        ));
+    }
     let log = &cx.obs.rec.log;
     if cx.seq {
+        // sequential clause, lazily produced expansions: no child beyond the first match comes into existence
+        if cx.case.exp_mode > 0 && chains::INFO[cx.case.chain].2 == 0 {
+            model::take_exp();
+            let _ = seq_short_circuit_calls(cx);
+            let want = model::take_exp();
+            if cx.obs.exp_produced != want {
+                vs.push(v(
+                    "seq-expansion-beyond-match",
+                    format!("sequential mode asked the flat_map expansions for {} children; a lazy std chain asks for {}", cx.obs.exp_produced, want),
+                ));
+            }
+        }
         // sequential clause: nothing beyond the first match is evaluated (one-pass pipelines)
         if chains::INFO[cx.case.chain].2 == 0 {
             let exp = seq_short_circuit_calls(cx);
